@@ -1747,6 +1747,11 @@ def einsum(subscripts: str, *operands: Array,
                                            index_to_axis_length))
         access_descriptors.append(access_descriptor)
 
+    for idx in index_to_descr:
+        if idx not in index_to_axis_length:
+            raise ValueError(f"Output subscript '{idx}' does not appear in any "
+                             "input subscript.")
+
     # {{{ process index_to_redn_descr
 
     redn_axis_to_redn_descr = {}
